@@ -22,6 +22,7 @@ import c02 as C02
 import ext_layer            # extensibility layer (lib/ext_layer.py, notes/design/EXT.md)
 import setdef_layer         # SET / DEFAULT layer (lib/setdef_layer.py, notes/design/SetDef.md)
 import primb_layer          # restricted character strings (lib/primb_layer.py, notes/design/PrimB.md)
+import prima_layer          # ENUMERATED / BIT STRING layer (lib/prima_layer.py, notes/design/PrimA.md)
 import c03_tagmap as TM
 import c03_oerpos as P
 import c03_regions as RG
@@ -438,6 +439,7 @@ def main(tier):
         primb_layer.run_c03(run, rng, tier)
     finally:
         ext_layer.build, ext_layer.model_encode = orig_build, orig_encode
+    prima_layer.run_c03(run, rng, tier)
     t0 = time.time()
     ext_oer_part(run, model, captured, Rng(run.seed * 1000003 + 33), tier)
     log("C03: ext oer sweep %.1fs" % (time.time() - t0))
